@@ -581,6 +581,11 @@ def r3_phase_order(c, facts):
                     where[p] = bi
     for p in PHASES + READERS:
         if p not in where:
+            ch = sorted(P.chained_sites(facts, comp, comp, p))          # a phase run by a closure of an and_then chain
+            if ch:
+                where[p] = ch[0]
+    for p in PHASES + READERS:
+        if p not in where:
             c.bad(R, 'phase-missing:' + p, 'compile() no longer calls %s' % p)
     seq = [p for p in PHASES if p in where]
     for a, b in zip(seq, seq[1:]):
